@@ -7,6 +7,8 @@ import props
 
 TEXT = {
  "C01": ("proof", "Lean theorems: the parser's IR refines canonical Brainfuck (both directions, prefix) for every program, input and width; arithmetic lemmas of the optimiser (trip count, closed forms); the optimiser as a whole is tied by exact-model correspondence and end-to-end comparison with the proved semantics", "5/C01"),
+ "C02": ("proof", "Lean theorems about the bytecode machine (contract soundness, limited mode; late-pass preservation in Props/C02 when complete) + EXACT tie of bc::CodeGen::translate to the pure Lean BcGen.translate + threaded interpreter = Bc.run on real bytecode in debug and release profiles + end-to-end comparison with the proved canonical semantics; whole-generator preservation is partial", "5/C02"),
+ "C03": ("proof", "Lean theorems (Props/C03): per-instruction simulation of every copy/add/sub/mul selector arm against an x86 semantics validated on this CPU, straight-line composition, witnesses for the repaired arms; machine code = encoding of the modelled instruction lists EXACTLY on all selector forms; bytecode executed by the JIT on the CPU vs the bytecode semantics; end-to-end vs the proved canonical semantics. Control flow, calls, probes and the whole-program theorem are partial", "5/C03"),
  "C04": ("proof", "Lean theorem inplace_* (Props/C04): the in-place interpreter model and the canonical semantics reach equal states for every balanced program, environment and width, termination reflected, prefix property, limited mode; model tied to src/exec/inplace.rs by differential correspondence on every run", "5/C04"),
  "C05": ("proof", "Lean theorems (Props/C05): divergence certificates are sound; for the in-place interpreter and the IR interpreter at level 0 canonical divergence/termination and the output before divergence are preserved (corollaries of the C04/C01 refinements); other back ends and levels are held per program to the Lean model's halting/divergence certificate", "5/C05"),
  "C06": ("proof", "Lean theorems (Props/C06): on the layout model of the bounds-checked executors every tape access stays inside the allocation for every checked program and every move, growth preserves contents (with C09); the layout model equals the real (size, offset); all back ends run under a guard-page allocator (left and right)", "5/C06"),
